@@ -173,6 +173,12 @@ where
 {
     fn write(&mut self, buf: &[u8]) -> std::io::Result<usize> {
         let total_len = (self.max_pdu_length + PDU_HEADER_SIZE) as usize;
+        if self.buffer.len() == total_len && !buf.is_empty() {
+            // buffer was filled exactly by previous writes:
+            // send that PDU first, so that this call can accept data
+            // (returning `Ok(0)` would make `write_all` fail)
+            self.dispatch_pdu()?;
+        }
         if self.buffer.len() + buf.len() <= total_len {
             // accumulate into buffer, do nothing
             self.buffer.extend(buf);
